@@ -11,14 +11,18 @@ fields
   `F` (foreign; extra = `-`). `dir` is relative to the workspace root.
 * `inv` — the invocation directory relative to the workspace root (`.` = the root).
 * `cfg` — `dev|release` `,` `-` (default package directory) or hex of the `--package-dir` argument (a leading `$T` is
-  the scratch root).
+  the scratch root), optionally followed by `,L<hex dir>` (`$T/lnk` is a symbolic link to that directory of the
+  workspace; model and judge are lexical, the link is one more name of the package directory) and `,N` (the workspace
+  carries no ignore file; only generated for first runs).
 * `prev` — `-`, or `inv,dev|release`: an earlier complete run (same package directory) executed before the operations.
 * `ops` — operations on the package directory between the earlier run and the observed one, `|`-separated:
   `+path=D`, `+path=F<hex>`, `+path=L<hex target>` (put: replaces whatever is at or below the path, non-directories in
   the way become directories), `-path` (delete recursively).
 
-observation: `ok;<stdout lines, sorted, ','>;<tree before>;<tree after>` or `err:<kind>;<stdout lines>`. A tree is the
-sorted list of entries below the package directory, `|`-separated: `D path`, `L path hex(target)`, `F path token` with
+observation: `ok;<stdout lines, sorted, ','>;<tree before>;<tree after>[;src-changed:<hex path>]` or
+`err:<kind>;<stdout lines>`. A tree is the sorted list of entries below the package directory — the workspace sources
+as materialised and cargo's `target/` / `Cargo.lock` left out when the package directory holds them; a source entry that
+changed is reported by the `src-changed` part —, `|`-separated: `D path`, `L path hex(target)`, `F path token` with
 token `raw:<hex>`, `art:<dev|release>:<package>:<bin target>` (bytes identical to that cargo artifact) or
 `pkg:<hex uri>:<hex dep,…>:<os>` (a `package.toml`, parsed). The scratch root is printed as `$T`; the workspace root is
 `$T/ws`; model and judge use the stand-in `/tmp/$T` (same depth as the real `/tmp/<random>`).
@@ -77,9 +81,14 @@ def parseBp (s : String) : Option (Buildpack × Bool) :=
 
 def invAbs (inv : String) : Str := if inv = "." then wsRoot else wsRoot ++ '/' :: inv.toList
 
+/-- `L<hex dir>` (what `$T/lnk` points to) or `N` (no ignore file): the model, being lexical, does not use them -/
+def extraOk (s : String) : Bool :=
+  s = "N" || (s.startsWith "L" && (match hexStr (s.drop 1).toString with | some t => !t.isEmpty | none => false))
+
 def parseCfg (s : String) : Option Config :=
   match s.splitOn "," with
-  | [p, d] =>
+  | p :: d :: extras =>
+    if !extras.all extraOk then none else
     match parseProfile p with
     | none => none
     | some prof =>
@@ -251,18 +260,26 @@ def parseTree (s : String) : Option FS := allSome ((splitList s "|").map parseEn
 
 def parseLines (s : String) : List Str := (splitList s ",").map (fun l => expandRoot l.toList)
 
+def verdictOk (i : Input) (out pre post : String) (srcChanged : Option String) : String :=
+  match parseTree pre, parseTree post with
+  | some pre, some post =>
+    match Spec.Packaging.judge i.ws i.inv i.cfg ⟨true, parseLines out, pre, post, srcChanged⟩ with
+    | none => "ok"
+    | some w => "fail:" ++ w
+  | _, _ => "fail:unparsable-observation"
+
 def verdict (i : Input) (obs : String) : String :=
   match obs.splitOn ";" with
-  | ["ok", out, pre, post] =>
-    match parseTree pre, parseTree post with
-    | some pre, some post =>
-      match Spec.Packaging.judge i.ws i.inv i.cfg ⟨true, parseLines out, pre, post⟩ with
-      | none => "ok"
-      | some w => "fail:" ++ w
-    | _, _ => "fail:unparsable-observation"
+  | ["ok", out, pre, post] => verdictOk i out pre post none
+  | ["ok", out, pre, post, chg] =>
+    if chg.startsWith "src-changed:" then
+      match hexStr (chg.drop 12).toString with
+      | some p => verdictOk i out pre post (some (String.ofList p))
+      | none => "fail:unparsable-observation"
+    else "fail:unparsable-observation"
   | [e, out] =>
     if e.startsWith "err:" then
-      match Spec.Packaging.judge i.ws i.inv i.cfg ⟨false, parseLines out, [], []⟩ with
+      match Spec.Packaging.judge i.ws i.inv i.cfg ⟨false, parseLines out, [], [], none⟩ with
       | none => "ok"
       | some w => "fail:" ++ w ++ " (" ++ e ++ ")"
     else "fail:unparsable-observation"
